@@ -31,7 +31,7 @@ def is_ns(kind: str) -> bool:
 
 def normalise(cfg: dict) -> dict:
     c = dict(kind="ns2d", shape=None, dtype="float64", forcing=False, stream=False, filter=None,
-             poisson="greens", width=2, params=list(DEFAULT_PARAMS), x_range=1.0)
+             poisson="greens", width=2, params=list(DEFAULT_PARAMS), x_range=1.0, stream_kind="generic")
     c.update(cfg)
     d = dim_of(c["kind"])
     if c["shape"] is None:
@@ -207,7 +207,28 @@ def step_reach(cfg) -> int:
     return 3
 
 
-def free_stream(cfg, seed=0):
+STREAM_KINDS = ["generic", "x-only", "y-only", "last-only", "negative", "zero"]
+
+
+def free_stream(cfg, seed=0, kind=None):
+    """Free-stream alphabet: generic (mixed signs), along a single axis (the other components exactly
+    zero), all components negative, exactly zero."""
     c = normalise(cfg)
     d = dim_of(c["kind"])
-    return np.array([0.8, -0.45, 0.3][:d]) * (1 + 0.1 * seed)
+    kind = kind or c.get("stream_kind") or "generic"
+    g = np.array([0.8, -0.45, 0.3][:d]) * (1 + 0.1 * seed)
+    if kind == "generic":
+        return g
+    if kind == "x-only":
+        return np.array([0.7, 0.0, 0.0][:d])
+    if kind == "y-only":
+        return np.array([0.0, 0.6, 0.0][:d])
+    if kind == "last-only":
+        v = np.zeros(d)
+        v[d - 1] = -0.5
+        return v
+    if kind == "negative":
+        return -np.abs(g)
+    if kind == "zero":
+        return np.zeros(d)
+    raise KeyError(kind)
